@@ -386,6 +386,8 @@ def cursor_contract(kind, E, opfn, ev, paths, base):
 
 def _accessed_index(r):
     for e in r.events:
+        if e['kind'] == 'index':
+            return e['index']
         if e['kind'] == 'call' and e['name'] in ('get_unchecked', 'get_unchecked_mut', 'get', 'get_mut', 'index', 'index_mut') and len(e['args']) == 2:
             return e['args'][1]
     return None
